@@ -10,6 +10,9 @@ PROOF_MODULE = "Nlmodel.Proofs.C01"
 PROOF_FILES = ["Nlmodel/Proofs/C01.lean", "Nlmodel/Model/Pipeline.lean", "Nlmodel/Model/Compiler.lean",
                "Nlmodel/Model/VM.lean", "Nlmodel/Model/Resolve.lean", "Nlmodel/Spec/Eval.lean"]
 THEOREM_FILE = PROOF_FILES[0]
+LEVEL_TEXT = 'Lean theorems about the machine model and the definitional semantics (budget monotonicity; the simulation theorem is being extended construct by construct, see DESIGN §5 C01) plus a deciding correspondence: the real eval (value, printed output, error kind) is compared with the definitional evaluator Spec.evalProgram on bounded-exhaustive and type-directed random programs, and with the machine model (steps, stack at Halt, collections) as a diagnostic tier.'
+LEVEL_NOTE = 'Trusted: Lean kernel; hand-written model tied to the code by the correspondence only; harness/driver I/O; Rust std. The full simulation theorem is partial (see DESIGN).'
+TECHNIQUE = 'Lean 4 proof (model + definitional semantics) + differential correspondence eval vs Spec.eval'
 RULE = ("programs: (a) bounded-exhaustive over the template grammar of checklib/enum.py, (b) type-directed "
         "random programs (checklib/gen.py) of 5-60 nodes, (c) the repository's examples/*.nl; a case is "
         "non-trivial when implementation and definitional semantics both produced a value or a "
